@@ -56,6 +56,14 @@ def _redshift_histogram(patch: Patch, binning: Binning) -> NDArray:
     return counts.astype(np.float64)
 
 
+def _redshift_histogram_indexed(
+    index: int, patch: Patch, binning: Binning
+) -> tuple[int, NDArray]:
+    """Worker function that returns the patch index along with the histogram,
+    since parallel workers deliver their results in arbitrary order."""
+    return index, _redshift_histogram(patch, binning)
+
+
 def resample_jackknife(observations: NDArray, patch_rows: bool = True) -> NDArray:
     """
     Compute jackknife samples from an array of histogram counts with shape
@@ -128,8 +136,9 @@ class HistData(CorrData):
             config = config.binning
 
         patch_count_iter = parallel.iter_unordered(
-            _redshift_histogram,
-            catalog.values(),
+            _redshift_histogram_indexed,
+            enumerate(catalog.values()),
+            unpack=True,
             func_kwargs=dict(binning=config.binning),
             max_workers=max_workers,
         )
@@ -137,7 +146,7 @@ class HistData(CorrData):
             patch_count_iter = Indicator(patch_count_iter, len(catalog))
 
         counts = np.empty((len(catalog), config.num_bins))
-        for i, patch_count in enumerate(patch_count_iter):
+        for i, patch_count in patch_count_iter:
             counts[i] = patch_count
         parallel.COMM.Bcast(counts, root=0)
 
